@@ -83,6 +83,15 @@ def corpus(env):
                     s.call("decap", skr="$kR.sk", enc="ecffffffffffffffffffffffffffffffffffffffffffffffffffffffffffff7f")
                 s.call("from_bytes", kind="pk", bytes="$kR.pk^flip:9")
                 s.call("from_bytes", kind="sk", bytes="$kR.sk^trunc:5")
+                # private keys sharing long prefixes, back to back
+                nskk = gen.nsk(kem)
+                basek = bytearray(g.raw(nskk))
+                if kem != 0x0020:
+                    basek[0] = 0
+                for tail in (g.raw(nskk - 32) if nskk > 32 else b"", g.raw(nskk - 32) if nskk > 32 else b"", None):
+                    skx = bytes(basek[:32]) + tail if tail is not None and nskk > 32 else bytes(basek)
+                    s.call("sk_to_pk", sk=skx)
+                    s.call("decap", skr=skx, enc="$kR.pk")
                 s.call("encap", pkr="$kR.pk", rng=g.rbytes(gen.nsk(kem)), out="e")
                 s.call("decap", skr="$kR.sk", enc="$e.enc")
     return cw.text()
